@@ -1,5 +1,6 @@
 """The edits of the Dyn vocabulary applied to the JSON mirror of the definitions (used by the generator to stay
-valid and by drivers/dyn.py to build the FRESH model of the differential oracle)."""
+valid and by drivers/dyn.py to build the FRESH model of the differential oracle).  A node holds its OWN definitions
+and the paths of its bases; what a sub space derives is computed by modelx itself when the fresh model is built."""
 
 
 def apply_edit(defs, op, globs=None):
@@ -21,7 +22,10 @@ def apply_edit(defs, op, globs=None):
     if k in ("setformula", "newcells"):
         nd = node(op["p"])
         cells = [c for c in nd["cells"] if c[0] != op["c"]]
-        if k == "setformula":
+        if k == "setformula" and len(cells) == len(nd["cells"]):
+            # inheritance class: the formula of a derived cells is set in the sub space; the cells becomes its own
+            nd["cells"] = cells + [[op["c"], op["params"], op["body"]]]
+        elif k == "setformula":
             nd["cells"] = [[op["c"], op["params"], op["body"]] if c[0] == op["c"] else c for c in nd["cells"]]
         else:
             nd["cells"] = cells + [[op["c"], op["params"], op["body"]]]
@@ -36,9 +40,19 @@ def apply_edit(defs, op, globs=None):
     elif k == "delref":
         nd = node(op["p"]); nd["refs"] = [r for r in nd["refs"] if r[0] != op["x"]]
     elif k == "newspace":
-        defs.append({"path": op["q"], "params": op["params"], "cells": [], "refs": []})
+        nd = {"path": op["q"], "params": op["params"], "cells": [], "refs": []}
+        if op.get("bases"):
+            nd["bases"] = [list(b) for b in op["bases"]]
+        defs.append(nd)
     elif k == "delspace":
         q = op["q"]
         defs[:] = [nd for nd in defs if nd["path"][:len(q)] != q]
+        for nd in defs:       # a deleted space is no base any more (inheritance class)
+            if nd.get("bases"):
+                nd["bases"] = [b for b in nd["bases"] if b[:len(q)] != q]
+    elif k == "addbases":
+        nd = node(op["p"]); nd["bases"] = (nd.get("bases") or []) + [list(b) for b in op["bases"]]
+    elif k == "removebases":
+        nd = node(op["p"]); nd["bases"] = [b for b in nd.get("bases") or [] if b not in op["bases"]]
     elif k == "setparams":
         nd = node(op["p"]); nd["params"] = op["params"]; nd.pop("raw_params", None)
